@@ -5,7 +5,7 @@
 From Coq Require Import List NArith ZArith Arith Bool.
 Import ListNotations.
 Require Import V.base.Fld V.base.ZpField V.model.LinAlg V.model.Poly V.model.Access V.model.Msp V.model.Kw V.model.Schemes.
-Require Import V.proofs.Span_proofs V.proofs.Msp_proofs V.proofs.Kw_proofs V.proofs.Families_proofs V.proofs.Schemes_proofs.
+Require Import V.proofs.Span_proofs V.proofs.Msp_proofs V.proofs.Kw_proofs V.proofs.Families_proofs V.proofs.Gate_proofs V.proofs.Schemes_proofs.
 
 (* ---- generic: every MSP (any matrix, any labelling — ideal or not), every field ------------- *)
 
@@ -115,13 +115,23 @@ Theorem C02_cnf_exact : forall F (K : fops F), flaws K -> forall mus (m : msp) i
 Proof. exact @cnf_accepts_iff_closed. Qed.
 Print Assumptions C02_cnf_exact.
 
-(* threshold-gate trees.  FULL STATEMENT (not proved):
-     forall tree m ids, check_tree tree = true -> induced_gate K fromN tree = Some m ->
-       (nodes 1..fan-in distinct and non-zero in the field) -> (forall id, In id ids -> In id (msp_lab m)) ->
-       accepts K m ids = tree_eval ids tree.
-   Proved part: a single threshold gate over distinct leaves (AND, OR, t-of-n), i.e. trees of depth 1;
-   deeper trees are covered by the exhaustive correspondence (all trees on <= 4 / 6 holders x all subsets) *)
-Theorem C02_gate_exact_partial : forall F (K : fops F), flaws K -> forall (fromN : N -> F) t leaves (m : msp) ids,
+(* threshold-gate trees (Liu-Cao-Wong Convert): every tree accepted by checkTree — any depth, leaves may
+   repeat in different gates (non-ideal MSP).  B bounds the fan-in of every gate (check_fan); hypothesis:
+   the nodes 1..fan-in that convert gives to the children of a gate, FromUint64(z+a) - FromUint64(z) + 1,
+   are pairwise distinct and non-zero in the field for a < B (true when the field characteristic exceeds B) *)
+Theorem C02_gate_exact : forall F (K : fops F), flaws K -> forall (fromN : N -> F) (B : nat),
+  (forall z a b, (a < B)%nat -> (b < B)%nat -> gx K fromN z (z + a) = gx K fromN z (z + b) -> a = b) ->
+  (forall z a, (a < B)%nat -> gx K fromN z (z + a) <> f0 K) ->
+  forall root (m : msp) ids,
+  check_tree root = true -> check_fan B root = true ->
+  induced_gate K fromN root = Some m ->
+  (forall id, In id ids -> In id (msp_lab m)) ->
+  accepts K m ids = tree_eval ids root.
+Proof. exact @gate_exact. Qed.
+Print Assumptions C02_gate_exact.
+
+(* the depth-1 case with the hypotheses spelled out for one gate *)
+Theorem C02_gate_flat_exact : forall F (K : fops F), flaws K -> forall (fromN : N -> F) t leaves (m : msp) ids,
   induced_gate K fromN (Gate t (map Leaf leaves)) = Some m ->
   NoDup leaves -> (0 < t)%nat -> leaves <> [] ->
   (forall i j, (i < length leaves)%nat -> (j < length leaves)%nat -> gate_node K fromN i = gate_node K fromN j -> i = j) ->
@@ -129,7 +139,7 @@ Theorem C02_gate_exact_partial : forall F (K : fops F), flaws K -> forall (fromN
   (forall id, In id ids -> In id leaves) ->
   accepts K m ids = tree_eval ids (Gate t (map Leaf leaves)).
 Proof. exact @gate_flat_exact. Qed.
-Print Assumptions C02_gate_exact_partial.
+Print Assumptions C02_gate_flat_exact.
 
 (* ---- dedicated schemes ------------------------------------------------------------------------------------ *)
 
@@ -199,7 +209,11 @@ Example C02_nonvacuous :
              accepts K7 m [1;3]%N = true /\ accepts K7 m [2]%N = false /\
              reconstruct K7 m (map (share_of K7 m (mvec K7 (msp_M m) [fromN7 5; fromN7 4])) [3;1]%N) = Some (fromN7 5)) /\
   (exists m, induced_cnf K7 [[1;2];[2;3]]%N = Some m /\ accepts K7 m [1;3]%N = true /\ accepts K7 m [3]%N = false) /\
-  (exists m, induced_una K7 [1;2;3]%N = Some m /\ accepts K7 m [1;2;3]%N = true /\ accepts K7 m [1;3]%N = false).
+  (exists m, induced_una K7 [1;2;3]%N = Some m /\ accepts K7 m [1;2;3]%N = true /\ accepts K7 m [1;3]%N = false) /\
+  (exists m, induced_gate K7 fromN7 (Gate 2 [Leaf 1; Gate 1 [Leaf 2; Leaf 3]; Leaf 2])%N = Some m /\
+             check_tree (Gate 2 [Leaf 1; Gate 1 [Leaf 2; Leaf 3]; Leaf 2])%N = true /\
+             check_fan 4 (Gate 2 [Leaf 1; Gate 1 [Leaf 2; Leaf 3]; Leaf 2])%N = true /\
+             accepts K7 m [3;1]%N = true /\ accepts K7 m [2]%N = true /\ accepts K7 m [3]%N = false).
 Proof.
-  split; [|split]; eexists; (split; [vm_compute; reflexivity|]); repeat split; vm_compute; reflexivity.
+  split; [|split; [|split]]; eexists; (split; [vm_compute; reflexivity|]); repeat split; vm_compute; reflexivity.
 Qed.
